@@ -241,6 +241,14 @@ struct ConfigWorld : World {
 					while (true) { const char *base = lp.base + lp.off; int l; { Sut s; l = mpt_path_next(&lp); } if (l < 0) break; seenl.emplace_back(base, (size_t) l); if (++gl > 16) break; }
 					if (seenl.size() != 1 || seenl[0] != last) fail("walk-differs", "after mpt_path_last on '%s' the path iterates as %zu element(s)%s, expected the last component of %zu characters alone", short_path(rel).c_str(), seenl.size(), seenl.size() == 1 ? (" of " + std::to_string(seenl[0].size()) + " characters").c_str() : "", last.size());
 					st.hit("probe:path_last");
+					// the same on a path whose first element was already walked off
+					if (rel.size() >= 2) {
+						mpt::path l2; l2.sep = sep; l2.assign = 0;
+						{ Sut s; mpt_path_set(&l2, (const char *) pb.p, -1); mpt_path_next(&l2); }
+						int l2l; { Sut s; l2l = mpt_path_last(&l2); }
+						if (l2l != (int) last.size() || std::string(l2.base + l2.off, (size_t) (l2l < 0 ? 0 : l2l)) != last)
+							fail("walk-differs", "mpt_path_last after one mpt_path_next on '%s' gives an element of %d characters at offset %zu, the last component has %zu", short_path(rel).c_str(), l2l, (size_t) l2.off, last.size());
+					}
 				}
 				// rebuild element by element and compare
 				if (!degenerate) {
@@ -255,6 +263,16 @@ struct ConfigWorld : World {
 						PathV seen2; mpt::path it(bp); int g2 = 0;
 						while (true) { const char *base = it.base + it.off; int l; { Sut s; l = mpt_path_next(&it); } if (l < 0) break; seen2.emplace_back(base, (size_t) l); if (++g2 > 16) break; }
 						if (seen2 != rel) fail("walk-differs", "a path rebuilt element by element from '%s' iterates as %zu elements", short_path(rel).c_str(), seen2.size());
+					}
+					if (ok && rel.size() >= 3) {
+						// walk off the first element of the rebuilt path, drop its last one: the middle remains, and the path can be extended again
+						int r1, r2; { Sut s; r1 = mpt_path_next(&bp); r2 = mpt_path_del(&bp); }
+						PathV mid(rel.begin() + 1, rel.end() - 1), seen5; mpt::path it(bp); int g5 = 0;
+						while (true) { const char *base = it.base + it.off; int l; { Sut s; l = mpt_path_next(&it); } if (l < 0) break; seen5.emplace_back(base, (size_t) l); if (++g5 > 16) break; }
+						if (r1 < 0 || r2 < 0 || seen5 != mid) fail("walk-differs", "rebuilt path '%s': after next (%d) and del (%d) %zu elements remain, the %zu middle ones were expected", short_path(rel).c_str(), r1, r2, seen5.size(), mid.size());
+						int rv; { Sut s; rv = mpt_path_valid(&bp); }
+						if (rv < 0) fail("walk-differs", "rebuilt path '%s' is reported invalid (%d) after next and del", short_path(rel).c_str(), rv);
+						st.hit("probe:path_next_then_del");
 					}
 					{ Sut s; mpt_path_fini(&bp); }
 					// the same through the C++ path class: add(n) closes an element of n characters, next() walks, del() drops the last element
